@@ -121,3 +121,90 @@ def verify_send(run):
     run.lemma('pipeline_rule/other_true_result_passes_data_on', [d != REJ, Not(Val.is_D(app(f0, d))), truthy(app(f0, d))], pstep(f0, d) == app_mut(f0, d))
     run.lemma('pipeline_rule/false_result_ends_pipeline', [d != REJ, Not(Val.is_D(app(f0, d))), Not(truthy(app(f0, d)))], pstep(f0, d) == REJ)
     run.assume('event filters are deterministic, do not raise, and return str-keyed mappings (a non-str key raises TypeError in send)')
+
+
+# ---- Event.__init__ / Event.typecheck ----------------------------------------------------------------------------------------------------
+is_eventtype = Function('is_EventType_instance', Val, BoolSort())        # isinstance(x, EventType) for a value that is not EC (EventCond is one)
+filters_of = Function('efilter_tuple_of', Val, IntSort())               # efilter_tuple(x) (C02/C16): a tuple of callables
+
+
+@contract('Event.typecheck', qual='edzed.block:Event.typecheck', modifies=())
+def _typecheck(c):
+    t = c.v('etype')
+    ok_type = Or(Val.is_S(t), Val.is_EC(t), And(Val.is_Obj(t), calls.inst_of(Val.ref(t), calls.C_class('EventType'))))
+    c.raises('ValueError', when=And(Val.is_S(t), Length(Val.s(t)) == 0), iff=True, label='empty_event_name')
+    c.raises('TypeError', when=Not(ok_type), iff=True, label='neither_a_name_nor_an_event_type')
+    c.requires('event_types_are_names_conditional_events_or_objects', Or(Val.is_S(t), Val.is_EC(t), Val.is_Obj(t), Val.is_VNone(t), Val.is_I(t)))
+
+
+def new_repeat(ex, e, st):
+    """sblocks1.Repeat(None, comment=..., dest=dest, etype=etype, interval=repeat, count=count): a new Repeat block (C18) in front of
+    the destination; its constructor validates interval and count"""
+    kws = {k.arg: k.value for k in e.keywords}
+    outs = []
+    for s1, vals in ex.evs([kws['dest'], kws['etype'], kws['interval'], kws['count']], st):
+        s1 = s1.copy(); r = fresh('repeat_block', IntSort())
+        s1.assume(calls.inst_of(r, calls.C_class('Repeat')))
+        ex.emit(s1, rec('Repeat', Val.Obj(r), to_val(vals[0], s1), to_val(vals[1], s1),
+                        kw=Store(Store(EMPTY_DICT, StringVal('interval'), Opt.Some(to_val(vals[2], s1))), StringVal('count'), Opt.Some(to_val(vals[3], s1)))))
+        outs.append((s1, ZV('val', Val.Obj(r))))
+        bad = s1.copy(); bad.label('Repeat:raises')
+        outs.append((bad, Raise(PExc('ValueError', val=Val.Obj(fresh('exc', IntSort())), where='callee'))))
+    return outs
+
+
+def efilter_tuple_call(ex, e, st):
+    outs = []
+    for s1, vals in ex.evs(e.args, st):
+        k = filters_of(to_val(vals[0], s1)); j = Int('j!ft')
+        s1 = s1.copy(); s1.assume(tup_len(k) >= 0)
+        outs.append((s1, PSeq(z3.Lambda([j], tup_item(k, j)), tup_len(k), 'val')))
+        bad = s1.copy(); bad.label('efilter_tuple:raises')
+        outs.append((bad, Raise(PExc('TypeError', val=Val.Obj(fresh('exc', IntSort())), where='callee'))))
+    return outs
+
+
+def resolve_name_call(ex, e, st):
+    outs = []
+    for s1, vals in ex.evs(e.args, st):
+        s1 = s1.copy(); ex.emit(s1, rec('resolve_name', to_val(vals[0], s1), to_val(vals[1], s1)))
+        outs.append((s1, P_NONE))
+        bad = s1.copy(); bad.label('resolve_name:raises')
+        outs.append((bad, Raise(PExc('TypeError', val=Val.Obj(fresh('exc', IntSort())), where='callee'))))
+    return outs
+
+
+@contract('Event.__init__', qual='edzed.block:Event.__init__', modifies=('_dest', '_etype', '_filters'), self_cls='Event', params={'dest': VAL})
+def _event_init(c):
+    me = c.z('self')
+    dest, etype, repeat, count = c.v('dest'), c.v('etype'), c.v('repeat'), c.v('count')
+    c.requires('event_types_are_names_conditional_events_or_objects', Or(Val.is_S(etype), Val.is_EC(etype), Val.is_Obj(etype), Val.is_VNone(etype), Val.is_I(etype)))
+    c.raises('ValueError', unchanged=False, label='count_without_repeat__empty_name__or_bad_repeat_arguments')
+    c.raises('TypeError', unchanged=False, label='bad_event_type_filter_or_destination')
+    c.ensures('count_needs_repeat', Or(repeat != Val.VNone, count == Val.VNone))
+    c.ensures('event_type_kept', c.post('_etype', me) == etype)
+    c.ensures('direct_destination_without_repeat', Implies(repeat == Val.VNone, c.post('_dest', me) == dest))
+    if c.verifying:
+        def expected(k, r, st):
+            fn = z3.simplify(Rec.fn(r)).as_string()
+            if fn == 'Repeat':
+                return [('a_repeat_block_is_put_in_front_of_the_destination_with_the_given_pace_and_count',
+                         And(k == 0, repeat != Val.VNone, Rec.a0(r) == dest, Rec.a1(r) == etype,
+                             Rec.kw(r)[StringVal('interval')] == Opt.Some(repeat), Rec.kw(r)[StringVal('count')] == Opt.Some(count)))]
+            if fn == 'resolve_name':
+                return [('the_destination_is_registered_for_resolution_by_name', And(Rec.recv(r) == Val.Obj(me), Rec.a0(r) == S_('_dest')))]
+            return [('no_other_call', BoolVal(False))]
+        c.expect_trace(expected, 2, normal_len=If(repeat != Val.VNone, 2, 1), predicate=True)
+        c.ensures('with_repeat_the_event_goes_to_the_repeat_block', Implies(repeat != Val.VNone, And(Val.is_Obj(c.post('_dest', me)),
+                  calls.inst_of(Val.ref(c.post('_dest', me)), calls.C_class('Repeat')), c.T.tn == 2, Rec.recv(c.T.tr[0]) == c.post('_dest', me))))
+
+
+def get_circuit_stub(ex, e, st):
+    from pyvc.engine import PyObjStub
+    return [(st, PConst(PyObjStub()))]
+
+
+def verify_event_init(run):
+    run.verify('Event.typecheck')
+    run.verify('Event.__init__', cls='Event', hooks={'opaque_fstrings': True},
+               calls={'sblocks1.Repeat': new_repeat, 'efilter_tuple': efilter_tuple_call, 'simulator.get_circuit().resolve_name': resolve_name_call})
